@@ -493,7 +493,7 @@ func checkInsertionChain(p *core.Program, r *core.Report, ctx *circuitCtx, br *b
 	if T, _, _ := circuitTypeOf(p, "SetupInsertion"); T != nil {
 		if ps := provingSystemType(p); ps != nil {
 			for _, fn := range p.RepoFuncs() {
-				if fn.Signature.Recv() == nil || namedOf(fn.Signature.Recv().Type()) != ps || fn.Signature.Results().Len() != 2 || delegateTarget(fn) != nil || requestParamIndex(fn) < 0 {
+				if fn.Signature.Recv() == nil || namedOf(fn.Signature.Recv().Type()) != ps || fn.Signature.Results().Len() != 2 || (delegateTarget(fn) != nil || composesProvers(fn)) || requestParamIndex(fn) < 0 {
 					continue
 				}
 				if wt := witnessCircuitType(fn); wt != nil && wt == T {
